@@ -133,17 +133,27 @@ class SmartList(list):
             raise ValueError("List only supports elements of type '%s'" %
                              self._content_type)
 
+        # Look up the replaced object first; an invalid key must not change anything.
+        replaced = self[key]
+        if replaced is value:
+            return
+
+        # Names have to stay unique within the list.
+        for obj in self:
+            if obj is not replaced and obj is not value and obj.name == value.name:
+                raise KeyError("Object with the same name already exists! " + str(value))
+
         # If required remove new object from its old parents child-list
         if hasattr(value, "_parent") and (value._parent and value in value._parent):
             value._parent.remove(value)
 
         # If required move parent reference from replaced to new object
         # and set parent reference on replaced object None.
-        if hasattr(self[key], "_parent"):
-            value._parent = self[key]._parent
-            self[key]._parent = None
+        if hasattr(replaced, "_parent"):
+            value._parent = replaced._parent
+            replaced._parent = None
 
-        super(SmartList, self).__setitem__(key, value)
+        super(SmartList, self).__setitem__(self.index(replaced), value)
 
     def __contains__(self, key):
         for obj in self:
